@@ -259,17 +259,22 @@ def vm_crosscheck(tag, reqs, outs, limit=200):
         return 0, True, ''
     d = os.path.join(COQ, 'cases')
     os.makedirs(d, exist_ok=True)
+    tag = f'{tag}_{os.getpid()}'          # one file per run: concurrent runs of one property do not overwrite each other
     path = os.path.join(d, f'cases_{tag}.v')
     with open(path, 'w') as f:
         f.write('From Verif Require Import Base Run.\nOpen Scope string_scope.\nOpen Scope Z_scope.\n')
         for k, (r, o) in enumerate(zip(reqs, outs)):
             f.write(f'Goal run {coq_lit(r)} = {coq_lit(o)}. Proof. vm_compute. reflexivity. Qed.\n')
     rc, out = sh(f'ulimit -s unlimited; timeout 900 coqc -Q . Verif cases/cases_{tag}.v', cwd=COQ, timeout=1000)
-    for ext in ('.vo', '.vok', '.vos', '.glob'):
+    for ext in ('.vo', '.vok', '.vos', '.glob') + (('.v',) if rc == 0 else ()):     # the source is kept when it failed
         try:
             os.remove(path[:-2] + ext)
         except OSError:
             pass
+    try:
+        os.remove(os.path.join(d, f'.cases_{tag}.aux'))
+    except OSError:
+        pass
     return len(reqs), rc == 0, out[-2000:]
 
 # ----------------------------------------------------------------------------------------
@@ -383,6 +388,15 @@ def hand_fingerprints(entries):
             else:
                 out[key] = py2coq.fingerprint(node)
                 continue
+            # a bare method name: the method of that name in whichever class(es) of the module define it
+            if len(parts) == 1:
+                import hashlib
+                ms = [n for c in tree.body if isinstance(c, ast.ClassDef) for n in c.body
+                      if isinstance(n, ast.FunctionDef) and n.name == parts[0]]
+                if len(ms) == 1:
+                    out[key] = py2coq.fingerprint(ms[0]); continue
+                if ms:
+                    out[key] = hashlib.sha1('|'.join(py2coq.fingerprint(n) for n in ms).encode()).hexdigest(); continue
             out[key] = 'missing'
         except Exception as ex:
             out[key] = 'error:' + type(ex).__name__
